@@ -183,6 +183,41 @@ def gen_constexpr_file(r):
     return "\n".join(out) + "\nint main(void) { return 0; }\n"
 
 
+def gen_scale_file(r):
+    """one construct repeated or stretched to a size around a power of two (tables, counters and fixed-width
+    fields inside the compiler only show at scale)"""
+    n = r.pick([255, 256, 257, 1000, 1023, 1024, 1025, 1500, 2048, 3000, 4095, 4097, 8200])
+    k = r.below(12)
+    if k == 0:
+        return "struct big { %s };\nstruct big g = { %s };\nint main(void) { struct big l = { 1, 2 }; return g.m0 + l.m1; }\n" % (
+            " ".join("int m%d;" % i for i in range(n)), ", ".join(str(i % 97) for i in range(n)))
+    if k == 1:
+        return "int f(void) { %s return v0 + v%d; }\nint main(void) { return f(); }\n" % (" ".join("int v%d = %d;" % (i, i) for i in range(min(n, 3000))), min(n, 3000) - 1)
+    if k == 2:
+        return 'char s[] = "%s";\nint main(void) { return sizeof(s) & 1; }\n' % ("x" * (n * r.pick([1, 17])))
+    if k == 3:
+        return "int f(int x) { switch (x) { %s default: return -1; } }\nint main(void) { return f(3); }\n" % " ".join("case %d: return %d;" % (i * 3, i) for i in range(min(n, 4100)))
+    if k == 4:
+        d = min(n, 600)
+        return "int main(void) { int x = 0; %s x++; %s return x; }\n" % ("{" * d, "}" * d)
+    if k == 5:
+        name = "a" + "b" * n
+        return "int %s = 3;\nint main(void) { return %s; }\n" % (name, name)
+    if k == 6:
+        return "#line %d\nint x = __LINE__;\n#line %d \"other.c\"\nint y = __LINE__;\nint main(void) { return 0 }\n" % (n * 40, n * 2000)
+    if k == 7:
+        return "long a[] = { %s };\nint main(void) { return sizeof(a) > 8; }\n" % ", ".join(str((i * 7919) % 100003) for i in range(n * 2))
+    if k == 8:
+        m = min(n, 300)
+        return "#define M(%s) (%s)\nint x = M(%s);\nint main(void) { return 0; }\n" % (", ".join("p%d" % i for i in range(m)), " + ".join("p%d" % i for i in range(m)), ", ".join(str(i) for i in range(m)))
+    if k == 9:
+        m = min(n, 400)
+        return "long f(%s) { return a0 + a%d; }\nlong main(void) { return f(%s); }\n" % (", ".join(("long a%d" if i % 3 else "double a%d") % i for i in range(m)), m - 1, ", ".join(str(i) for i in range(m)))
+    if k == 10:
+        return "struct bf { %s };\nstruct bf g = { %s };\nint main(void) { return g.b0; }\n" % (" ".join("unsigned b%d : %d;" % (i, 1 + i % 31) for i in range(min(n, 2100))), ", ".join(str(i) for i in range(min(n, 2100))))
+    return "%s\nint main(void) { return e0 + E%d; }\n" % ("enum { e0, %s };" % ", ".join("E%d" % i for i in range(n)), n - 1)
+
+
 def list_inputs(src):
     own = [os.path.join(src, f) for f in sorted(os.listdir(src)) if f.endswith(".c")]
     tests = [os.path.join(src, "test", f) for f in sorted(os.listdir(os.path.join(src, "test"))) if f.endswith(".c")]
@@ -200,9 +235,12 @@ OPTION_SETS = [["-###"], ["-###", "-c"], [], ["-###", "-static"], ["-###", "-sha
 
 def gen_case(seed, src, own, tests, avail=None):
     r = Rng(seed)
-    x = r.below(24)
+    x = r.below(26)
     gen_text = None
-    if x >= 20:
+    if x >= 24:
+        path, mutated = tests[0], False
+        gen_text = gen_scale_file(r)
+    elif x >= 20:
         path, mutated = tests[0], False
         gen_text = gen_constexpr_file(r)
     elif x < 2:
